@@ -269,7 +269,11 @@ Definition step_C03 (pd : digest) (o : op) (ob : obs) (dg : digest) : bool :=
 (* ------------------------------------------------------------------ C08 *)
 Definition spec_offer_allowed (s : sd) (stream media : N) : bool :=
   if N.eqb stream 2 then perm_d s 2
-  else (negb (N.testbit media 0) || perm_d s 3 || perm_d s 0) && (negb (N.testbit media 1) || perm_d s 3 || perm_d s 1).
+  else
+    (* an audio / video section counts whatever its port (bits 3 / 4: sections with port 0, "bundle-only") *)
+    let audio := N.testbit media 0 || N.testbit media 3 in
+    let video := N.testbit media 1 || N.testbit media 4 in
+    (negb audio || perm_d s 3 || perm_d s 0) && (negb video || perm_d s 3 || perm_d s 1).
 
 Definition spec_same_call (pd : digest) (s : sd) (n : N) : bool :=
   is_internal_d s ||
@@ -297,7 +301,10 @@ Definition step_C08 (pd : digest) (o : op) (ob : obs) (dg : digest) : bool :=
   (* nobody holds a publisher it may not have *)
   && forallb (fun x => is_virtual_d x ||
                        ((negb (N.testbit x.(d_pubs) 2) || perm_d x 2) &&
-                        (negb (N.testbit x.(d_pubs) 1 || N.testbit x.(d_pubs) 0) || perm_d x 3 || perm_d x 0 || perm_d x 1))) dg.(g_sessions)
+                        (* audio / video carried by its publishers needs the media or the audio / video permission
+                           (a publisher that carries neither, e.g. a data channel only, needs none) *)
+                        (negb (N.testbit x.(d_pubmedia) 0) || perm_d x 3 || perm_d x 0) &&
+                        (negb (N.testbit x.(d_pubmedia) 1) || perm_d x 3 || perm_d x 1))) dg.(g_sessions)
   (* transient data changes only by sessions that may change it *)
   && match o with
      | OTransient c _ _ _ =>
@@ -456,13 +463,22 @@ Definition step_C06 (ps : pstate) (o : op) (ob : obs) (dg : digest) : bool :=
                     (* same session id first, then everything addressed to it meanwhile, in order, once *)
                     match got with
                     | SHello sid _ :: rest =>
-                        N.eqb sid n && list_eqb pair_eqb (smsg_tags rest) queued
+                        N.eqb sid n &&
+                        (* ... up to a bye / disinvite that was waiting among them: that one ends the session, nothing
+                           can be written after it *)
+                        (if existsb (fun m => match m with SBye _ | SDisinvite _ => true | _ => false end) rest
+                         then list_eqb pair_eqb (smsg_tags rest) (firstn (length (smsg_tags rest)) queued)
+                         else list_eqb pair_eqb (smsg_tags rest) queued)
                     | [SError 11] => true                 (* throttled *)
                     | _ => false end
                     &&
                     match got with
                     | [SError 11] => true
                     | _ =>
+                      (* a bye or a disinvite that was waiting in the queue ends the session once it is delivered *)
+                      if existsb (fun m => match m with SBye _ | SDisinvite _ => true | _ => false end) got then
+                        negb (live dg n) && nmem c ob.(o_closed)
+                      else
                       match find_sd dg n with
                       | Some y => optN_eqb y.(d_conn) (Some c) && opt_pair_eqb y.(d_room) x.(d_room) && N.eqb y.(d_pending) 0
                                   (* ... including the notice that it is in no room any more: what the client can
@@ -555,7 +571,8 @@ Definition hold_ok (md dg : digest) : bool :=
   forallb (fun x => is_virtual_d x ||
      match find_sd md x.(d_sid) with
      | Some y => (negb (N.testbit x.(d_pubs) 2) || perm_d y 2) &&
-                 (negb (N.testbit x.(d_pubs) 1 || N.testbit x.(d_pubs) 0) || perm_d y 3 || perm_d y 0 || perm_d y 1)
+                 (negb (N.testbit x.(d_pubmedia) 0) || perm_d y 3 || perm_d y 0) &&
+                 (negb (N.testbit x.(d_pubmedia) 1) || perm_d y 3 || perm_d y 1)
      | None => true end) dg.(g_sessions).
 
 Definition check_step_spec (which : N) (cfg : pcfg) (last : bool) (ps : pstate) (md md' : digest) (o : op) (ob : obs) (dg : digest) : N :=
